@@ -56,11 +56,94 @@ def run(ctx):
         _wrapgate(ctx, cfg, prog, mod)
         _builder(ctx, cfg, prog, mod)
         _topokeep(ctx, cfg, prog, mod)
+        _rewrap(ctx, cfg, prog, mod)
+        _optpass(ctx, cfg, prog, mod)
         import idkeep
         ctx.rule('IDENT', 'wrapped vertices keep the UUID and data of the input vertex they replace')
         idkeep.check(ctx, cfg, prog, mod, 'IDENT',
                      lambda o: o.rsplit('::', 1)[-1] in ('canonicalize_vertices', 'build_periodic', 'canonicalize_vertex_for_insertion'), 2)
     return ctx.finish(EXPLANATION)
+
+
+INSERT_TX = 'core::triangulation::Triangulation::insert_transactional'
+VNEW = 'core::vertex::Vertex::new_with_uuid'
+
+
+def _rewrap(ctx, cfg, prog, mod):
+    """REWRAP: the insertion layer may move the point after the caller-facing wrap: the degeneracy retry re-creates the
+    vertex at perturbed coordinates.  A point wrapped onto a face of the box and then perturbed by -1e-8 leaves the
+    half-open box, so every re-creation of the vertex inside `insert_transactional` must be dominated by the success
+    edge of a canonicalisation (`GlobalTopologyModel::canonicalize_point_in_place` or a must-canonicalise function)."""
+    ctx.rule('REWRAP', 'a vertex re-created at perturbed coordinates is wrapped into the fundamental domain again')
+    b = ctx.anchor(cfg, INSERT_TX)
+    if b is None:
+        return
+    lv = gate.Leaves(prog)
+    G = _wrap_gates(prog, lv)
+    sites = [bb for bb, t in b.calls() if (t.resolved or t.callee) == VNEW]
+    cflows = flow.all_call_flows(b)
+    via = set()
+    seen = []
+    for bb, t in b.calls():
+        names = {x for x in (t.resolved, t.callee) if x}
+        if WRAP in names or names & G or any(n.endswith('::canonicalize_point_in_place') for n in names):
+            via |= cflows[bb].ok_edges
+            seen.append(t.line)
+    reach = flow.reach_edges_cp(b, [0], avoid_edges=via)
+    bad = [x for x in sites if x in reach]
+    ok = bool(sites) and bool(via) and not bad
+    ctx.ob('REWRAP', INSERT_TX, cfg, ok,
+           '%d re-creation site(s) of the perturbed vertex; canonicalisation calls at lines %s; %s' % (
+               len(sites), seen or 'none',
+               'each site lies behind the success edge of one' if ok else
+               'a perturbed vertex is re-created without being wrapped again: on a toroidal triangulation a point wrapped onto a '
+               'face and perturbed outwards is stored outside the half-open box'), site='%s:%d' % (b.file, b.line))
+    ctx.floor('perturbed-vertex re-creation sites in insert_transactional', 1, len(sites), cfg)
+
+
+BUILD_WK = 'core::builder::DelaunayTriangulationBuilder::build_with_kernel'
+BUILDER_SETTINGS = ('construction_options', 'topology_guarantee')
+
+
+def _optpass(ctx, cfg, prog, mod):
+    """OPTPASS: "the result is otherwise a certified triangulation of the wrapped points" - built with what the caller
+    configured.  In `build_with_kernel` every call that returns a `Result<DelaunayTriangulation ..>` (one per arm:
+    Euclidean, toroidal wrapping, toroidal periodic) receives the builder's `construction_options` and
+    `topology_guarantee` (its arguments' backward slices read those fields of `self`, or it receives `self`)."""
+    import valueflow
+    ctx.rule('OPTPASS', 'every builder arm hands the configured construction options and topology guarantee to its constructor')
+    b = ctx.anchor(cfg, BUILD_WK)
+    if b is None:
+        return
+    al = mod.aliases(BUILD_WK)
+    n = 0
+    for bb, t in b.calls():
+        name = t.resolved or t.callee or ''
+        if name not in prog.bodies or t.dest is None or not t.dest.is_local():
+            continue
+        rt = b.locals[t.dest.local]
+        if not (rt.startswith('std::result::Result<core::delaunay_triangulation::DelaunayTriangulation<')):
+            continue
+        n += 1
+        fields = set()
+        whole_self = False
+        for o in t.args:
+            if o.place is None:
+                continue
+            tt = al.operand_target(o)
+            if tt is not None and tt[0] == 1 and not tt[1]:
+                whole_self = True
+            for x in valueflow.sources(b, al, o.place.local):
+                if x[0] == 'place' and x[1][0] == 1 and x[1][1]:
+                    fields.add(x[1][1][0])
+        missing = [f for f in BUILDER_SETTINGS if f not in fields and not whole_self]
+        ctx.ob('OPTPASS', '%s|%s' % (BUILD_WK, name.rsplit('::', 1)[-1]), cfg, not missing,
+               'constructor call %s receives %s' % (name.rsplit('::', 1)[-1],
+                   'the whole builder' if whole_self else 'builder fields %s' % sorted(fields)) + (
+                   '' if not missing else '; the configured %s never reach(es) it: this arm builds with defaults, whatever the caller set '
+                   '(de-duplication, ordering, retry policy matter most where wrapping creates coincident points)' % missing),
+               site='%s:%d' % (b.file, t.line))
+    ctx.floor('constructor calls in build_with_kernel', 2, n, cfg)
 
 
 TOPO_WRITERS = {'set_global_topology': 'the documented setter'}
